@@ -13,6 +13,7 @@ import tables as T  # noqa: E402
 FILTERS = ['size', 'prefix', 'position', 'suffix', 'overlap']
 WHICH = {'size': 'FSize', 'prefix': 'FPrefix', 'position': 'FPosition', 'suffix': 'FSuffix',
          'overlap': 'FOverlap'}
+TABLE_SPECS = ['model_agrees', 'complete_spec', 'sound_spec', 'missing_spec', 'empty_spec']
 FP_SPECS = ['fp_agrees', 'fp_safe_spec', 'fp_overlap_exact_spec', 'fp_missing_spec', 'fp_empty_spec',
             'fp_common_token_spec']
 
@@ -189,8 +190,7 @@ def abstract_tables_call(call, df, idx):
                       call['with_score'], call['njobs'], T.cpu_count(), rows_l, rows_r)
     obs = T.obs_lit(df, 'l_' + call['names'][0], 'r_' + call['names'][2], it, call['with_score'])
     defs = 'Definition c%d : jcase := %s.\nDefinition o%d : list out_row := %s.' % (idx, lit, idx, obs)
-    return defs, ['model_agrees c%d o%d' % (idx, idx), 'complete_spec c%d o%d' % (idx, idx),
-                  'sound_spec c%d o%d' % (idx, idx)]
+    return defs, ['%s c%d o%d' % (sp, idx, idx) for sp in TABLE_SPECS]
 
 
 def describe_tables(call, df=None):
@@ -226,14 +226,14 @@ def run_tables(seed, n, which=None):
         else:
             groups.append(abstract_tables_call(call, df, i))
     bad = C.run_groups('ftables_%d' % seed,
-                       ['TokenOrdering', 'Filters', 'Suffix', 'Joins', 'Api', 'JoinSpec'], groups)
+                       ['TokenOrdering', 'Filters', 'Suffix', 'Joins', 'Api', 'JoinSpec', 'MetaSpec'], groups)
     res = {'evaluations': n, 'distribution': dist, 'differ': [], 'spec_fail': [], 'exceptions': [],
            'nontrivial': sum(1 for c, d in zip(calls, dfs) if not isinstance(d, Exception) and
                              0 < len(d) < len(c['L']) * len(c['R'])),
            'samples': [describe_tables(calls[i], dfs[i]) for i in range(min(2, n))]}
     for gi, ei in sorted(bad):
         (res['differ'] if ei == 0 else res['spec_fail']).append(
-            {'case': gi, 'which': ['model_agrees', 'complete_spec', 'sound_spec'][ei],
+            {'case': gi, 'which': TABLE_SPECS[ei],
              'call': describe_tables(calls[gi], dfs[gi])})
     for i, d in enumerate(dfs):
         if isinstance(d, Exception):
